@@ -233,4 +233,205 @@ theorem theMap_extra (c : Claims) (k : String)
     lookup_optSet_ne _ _ k _ _ h4, lookup_setAud_ne _ _ k h3, lookup_optSet_ne _ _ k _ _ h2,
     lookup_optSet_ne _ _ k _ _ h1]
 
+/-! ### the field wins: registered names also present in `Raw` -/
+
+/-- **encodeClaims_field_wins** — the map `encodeClaims` marshals, for every Claims value (no
+    condition on `Raw`): under each registered name the member is the encoding of the struct FIELD
+    when the field is set (non-empty string, non-nil audience, non-zero time) — whatever `Raw` holds
+    under that name — and `Raw`'s own member when the field is zero; every other member is `Raw`'s. -/
+theorem encodeClaims_field_wins (c : Claims) (he : TimeOK c.exp) (hn : TimeOK c.nbf) (hi : TimeOK c.iat) :
+    claimsMap c = .ok (theMap c) ∧
+    Wire.lookup "iss" (theMap c) = (if c.iss ≠ "" then some (.str c.iss) else Wire.lookup "iss" (rawKVs c.raw)) ∧
+    Wire.lookup "sub" (theMap c) = (if c.sub ≠ "" then some (.str c.sub) else Wire.lookup "sub" (rawKVs c.raw)) ∧
+    Wire.lookup "jti" (theMap c) = (if c.jti ≠ "" then some (.str c.jti) else Wire.lookup "jti" (rawKVs c.raw)) ∧
+    Wire.lookup "exp" (theMap c) = (if c.exp ≠ NumericDate.zeroTime then some (.num (timeText c.exp)) else Wire.lookup "exp" (rawKVs c.raw)) ∧
+    Wire.lookup "nbf" (theMap c) = (if c.nbf ≠ NumericDate.zeroTime then some (.num (timeText c.nbf)) else Wire.lookup "nbf" (rawKVs c.raw)) ∧
+    Wire.lookup "iat" (theMap c) = (if c.iat ≠ NumericDate.zeroTime then some (.num (timeText c.iat)) else Wire.lookup "iat" (rawKVs c.raw)) ∧
+    Wire.lookup "aud" (theMap c) = (match c.aud with
+      | [] => Wire.lookup "aud" (rawKVs c.raw)
+      | [a] => some (.str a)
+      | l => some (.arr (l.map Wire.str))) := by
+  refine ⟨claimsMap_ok c he hn hi, ?_, ?_, ?_, ?_, ?_, ?_, ?_⟩
+  · unfold theMap
+    simp only [lookup_optSet_ne _ _ "iss" _ _ (by decide : "iss" ≠ "jti"),
+      lookup_optSet_ne _ _ "iss" _ _ (by decide : "iss" ≠ "iat"), lookup_optSet_ne _ _ "iss" _ _ (by decide : "iss" ≠ "nbf"),
+      lookup_optSet_ne _ _ "iss" _ _ (by decide : "iss" ≠ "exp"), lookup_setAud_ne _ _ "iss" (by decide),
+      lookup_optSet_ne _ _ "iss" _ _ (by decide : "iss" ≠ "sub"), lookup_optSet_same]
+    by_cases h : c.iss = "" <;> simp [h]
+  · unfold theMap
+    simp only [lookup_optSet_ne _ _ "sub" _ _ (by decide : "sub" ≠ "jti"),
+      lookup_optSet_ne _ _ "sub" _ _ (by decide : "sub" ≠ "iat"), lookup_optSet_ne _ _ "sub" _ _ (by decide : "sub" ≠ "nbf"),
+      lookup_optSet_ne _ _ "sub" _ _ (by decide : "sub" ≠ "exp"), lookup_setAud_ne _ _ "sub" (by decide),
+      lookup_optSet_same, lookup_optSet_ne _ _ "sub" _ _ (by decide : "sub" ≠ "iss")]
+    by_cases h : c.sub = "" <;> simp [h]
+  · unfold theMap
+    simp only [lookup_optSet_same, lookup_optSet_ne _ _ "jti" _ _ (by decide : "jti" ≠ "iat"),
+      lookup_optSet_ne _ _ "jti" _ _ (by decide : "jti" ≠ "nbf"), lookup_optSet_ne _ _ "jti" _ _ (by decide : "jti" ≠ "exp"),
+      lookup_setAud_ne _ _ "jti" (by decide), lookup_optSet_ne _ _ "jti" _ _ (by decide : "jti" ≠ "sub"),
+      lookup_optSet_ne _ _ "jti" _ _ (by decide : "jti" ≠ "iss")]
+    by_cases h : c.jti = "" <;> simp [h]
+  · unfold theMap
+    simp only [lookup_optSet_ne _ _ "exp" _ _ (by decide : "exp" ≠ "jti"),
+      lookup_optSet_ne _ _ "exp" _ _ (by decide : "exp" ≠ "iat"), lookup_optSet_ne _ _ "exp" _ _ (by decide : "exp" ≠ "nbf"),
+      lookup_optSet_same, lookup_setAud_ne _ _ "exp" (by decide),
+      lookup_optSet_ne _ _ "exp" _ _ (by decide : "exp" ≠ "sub"), lookup_optSet_ne _ _ "exp" _ _ (by decide : "exp" ≠ "iss")]
+    by_cases h : c.exp = NumericDate.zeroTime <;> simp [h]
+  · unfold theMap
+    simp only [lookup_optSet_ne _ _ "nbf" _ _ (by decide : "nbf" ≠ "jti"),
+      lookup_optSet_ne _ _ "nbf" _ _ (by decide : "nbf" ≠ "iat"), lookup_optSet_same,
+      lookup_optSet_ne _ _ "nbf" _ _ (by decide : "nbf" ≠ "exp"), lookup_setAud_ne _ _ "nbf" (by decide),
+      lookup_optSet_ne _ _ "nbf" _ _ (by decide : "nbf" ≠ "sub"), lookup_optSet_ne _ _ "nbf" _ _ (by decide : "nbf" ≠ "iss")]
+    by_cases h : c.nbf = NumericDate.zeroTime <;> simp [h]
+  · unfold theMap
+    simp only [lookup_optSet_ne _ _ "iat" _ _ (by decide : "iat" ≠ "jti"), lookup_optSet_same,
+      lookup_optSet_ne _ _ "iat" _ _ (by decide : "iat" ≠ "nbf"),
+      lookup_optSet_ne _ _ "iat" _ _ (by decide : "iat" ≠ "exp"), lookup_setAud_ne _ _ "iat" (by decide),
+      lookup_optSet_ne _ _ "iat" _ _ (by decide : "iat" ≠ "sub"), lookup_optSet_ne _ _ "iat" _ _ (by decide : "iat" ≠ "iss")]
+    by_cases h : c.iat = NumericDate.zeroTime <;> simp [h]
+  · unfold theMap
+    simp only [lookup_optSet_ne _ _ "aud" _ _ (by decide : "aud" ≠ "jti"),
+      lookup_optSet_ne _ _ "aud" _ _ (by decide : "aud" ≠ "iat"), lookup_optSet_ne _ _ "aud" _ _ (by decide : "aud" ≠ "nbf"),
+      lookup_optSet_ne _ _ "aud" _ _ (by decide : "aud" ≠ "exp")]
+    unfold setAud
+    match hca : c.aud with
+    | [] =>
+      simp only [lookup_optSet_ne _ _ "aud" _ _ (by decide : "aud" ≠ "sub"),
+        lookup_optSet_ne _ _ "aud" _ _ (by decide : "aud" ≠ "iss")]
+    | [a] => simp [lookup_setKey_same]
+    | a :: b :: r => simp [lookup_setKey_same]
+
+/-- the string `Parse` reads under `k`: the member if it is a string, "" if it is absent -/
+def StrIs (raw : List (String × Wire)) (k s : String) : Prop :=
+  Wire.lookup k raw = some (.str s) ∨ (Wire.lookup k raw = none ∧ s = "")
+
+/-- the instant `Parse` reads under `k`: a number that NumericDate decodes, or absent (zero time) -/
+def TimeIs (raw : List (String × Wire)) (k : String) (t : Int) : Prop :=
+  (∃ txt, Wire.lookup k raw = some (.num txt) ∧ NumericDate.decode txt = .ok t) ∨
+  (Wire.lookup k raw = none ∧ t = NumericDate.zeroTime)
+
+theorem getString_of_strIs (raw : List (String × Wire)) (k s : String) (h : StrIs raw k s) :
+    (getString ⟨raw, none⟩ k).1 = s ∧ (getString ⟨raw, none⟩ k).2.2 = ⟨raw, none⟩ := by
+  unfold getString
+  rcases h with h | ⟨h, hs⟩
+  · simp [h]
+  · simp [h, hs]
+
+theorem getTime_of_timeIs (raw : List (String × Wire)) (k : String) (t : Int) (h : TimeIs raw k t) :
+    getTime ⟨raw, none⟩ k = .ok (t, (Wire.lookup k raw).isSome, ⟨raw, none⟩) := by
+  unfold getTime
+  rcases h with ⟨txt, h, hd⟩ | ⟨h, ht⟩
+  · simp [h, hd]
+  · simp [h, ht]
+
+theorem audience_congr (r0 r1 : List (String × Wire)) (l : List String)
+    (hl : Wire.lookup "aud" r1 = Wire.lookup "aud" r0)
+    (h : audience ⟨r0, none⟩ = (l, ⟨r0, none⟩)) : audience ⟨r1, none⟩ = (l, ⟨r1, none⟩) := by
+  unfold audience at h ⊢
+  simp only [hl]
+  cases hv : Wire.lookup "aud" r0 with
+  | none => rw [hv] at h; simp at h ⊢; exact h
+  | some v =>
+    rw [hv] at h
+    cases v with
+    | arr ws =>
+      simp only at h ⊢
+      cases hb : audBad ws with
+      | true =>
+        rw [hb] at h
+        simp only [if_true, Prod.mk.injEq] at h
+        have := congrArg Dec.err h.2
+        simp [Dec.save] at this
+      | false =>
+        rw [hb] at h
+        simp only [Bool.false_eq_true, if_false, Prod.mk.injEq] at h
+        simp [h.1]
+    | str s => simp only [Prod.mk.injEq] at h ⊢; first | exact ⟨h.1, trivial⟩ | exact h.1
+    | _ => simp only [Prod.mk.injEq] at h ⊢; first | exact ⟨h.1, trivial⟩ | exact h.1
+
+/-- **claims_roundtrip, general** — no condition on `Raw`.  `iss' … jti'` are the values a reader of
+    the emitted object sees: for a SET field the field itself (it wins over any member of `Raw`
+    under its name), for a zero field whatever well-typed member `Raw` carries (absent = zero value).
+    Under the json law, verifiers accepting those values and `now` on the right side of the emitted
+    exp/nbf, `encodeClaims` then `parseClaims` returns exactly them. -/
+theorem claims_roundtrip_general (o : Oracle) (c : Claims)
+    (he : TimeOK c.exp) (hn : TimeOK c.nbf) (hi : TimeOK c.iat)
+    (iss' sub' jti' : String) (aud' : List String) (exp' nbf' iat' : Int)
+    (hiss : (c.iss ≠ "" → iss' = c.iss) ∧ (c.iss = "" → StrIs (rawKVs c.raw) "iss" iss'))
+    (hsub : (c.sub ≠ "" → sub' = c.sub) ∧ (c.sub = "" → StrIs (rawKVs c.raw) "sub" sub'))
+    (hjti : (c.jti ≠ "" → jti' = c.jti) ∧ (c.jti = "" → StrIs (rawKVs c.raw) "jti" jti'))
+    (hexp : (c.exp ≠ NumericDate.zeroTime → exp' = c.exp) ∧ (c.exp = NumericDate.zeroTime → TimeIs (rawKVs c.raw) "exp" exp'))
+    (hnbf : (c.nbf ≠ NumericDate.zeroTime → nbf' = c.nbf) ∧ (c.nbf = NumericDate.zeroTime → TimeIs (rawKVs c.raw) "nbf" nbf'))
+    (hiat : (c.iat ≠ NumericDate.zeroTime → iat' = c.iat) ∧ (c.iat = NumericDate.zeroTime → TimeIs (rawKVs c.raw) "iat" iat'))
+    (haud : (c.aud ≠ [] → aud' = c.aud) ∧
+      (c.aud = [] → audience ⟨rawKVs c.raw, none⟩ = (aud', ⟨rawKVs c.raw, none⟩)))
+    (payload : Bytes) (kvs' : List (String × Wire))
+    (hmarshal : o ⟨"json.marshal", [.obj (theMap c)]⟩ = .bytes payload)
+    (hdecode : o ⟨"json.decodeMap", [.bytes payload]⟩ = .obj kvs')
+    (hjson : ∀ k, Wire.lookup k kvs' = Wire.lookup k (theMap c))
+    (hviss : o ⟨"verifyIssuer", [.str iss', .str sub']⟩ = .bool true)
+    (hvaud : o ⟨"verifyAudience", [.arr (aud'.map Wire.str)]⟩ = .bool true)
+    (hnowE : (Wire.lookup "exp" kvs').isSome = true → (o ⟨"now", []⟩).asInt < exp')
+    (hnowN : (Wire.lookup "nbf" kvs').isSome = true → ¬ (o ⟨"now", []⟩).asInt < nbf') :
+    (encodeClaims c >>= parseClaims).run o = .ok ⟨iss', sub', aud', exp', nbf', iat', jti', .obj kvs'⟩ := by
+  obtain ⟨hmap, Liss, Lsub, Ljti, Lexp, Lnbf, Liat, Laud⟩ := encodeClaims_field_wins c he hn hi
+  have strCase : ∀ (k : String) (fld s' : String),
+      Wire.lookup k (theMap c) = (if fld ≠ "" then some (.str fld) else Wire.lookup k (rawKVs c.raw)) →
+      ((fld ≠ "" → s' = fld) ∧ (fld = "" → StrIs (rawKVs c.raw) k s')) → StrIs kvs' k s' := by
+    intro k fld s' hL hh
+    unfold StrIs
+    rw [hjson, hL]
+    by_cases hf : fld = ""
+    · simp only [hf, ne_eq, not_true_eq_false, if_false]
+      exact hh.2 hf
+    · simp only [ne_eq, hf, not_false_eq_true, if_true]
+      left; rw [hh.1 hf]
+  have timeCase : ∀ (k : String) (fld t' : Int), TimeOK fld →
+      Wire.lookup k (theMap c) = (if fld ≠ NumericDate.zeroTime then some (.num (timeText fld)) else Wire.lookup k (rawKVs c.raw)) →
+      ((fld ≠ NumericDate.zeroTime → t' = fld) ∧ (fld = NumericDate.zeroTime → TimeIs (rawKVs c.raw) k t')) →
+      TimeIs kvs' k t' := by
+    intro k fld t' hok hL hh
+    unfold TimeIs
+    rw [hjson, hL]
+    by_cases hf : fld = NumericDate.zeroTime
+    · simp only [hf, ne_eq, not_true_eq_false, if_false]
+      exact hh.2 hf
+    · simp only [ne_eq, hf, not_false_eq_true, if_true]
+      left
+      rw [hh.1 hf]
+      exact ⟨timeText fld, rfl, (timeOK_text fld hok hf).2⟩
+  obtain ⟨gi1, gi2⟩ := getString_of_strIs kvs' "iss" iss' (strCase "iss" c.iss iss' Liss hiss)
+  obtain ⟨gs1, gs2⟩ := getString_of_strIs kvs' "sub" sub' (strCase "sub" c.sub sub' Lsub hsub)
+  obtain ⟨gj1, gj2⟩ := getString_of_strIs kvs' "jti" jti' (strCase "jti" c.jti jti' Ljti hjti)
+  have gte := getTime_of_timeIs kvs' "exp" exp' (timeCase "exp" c.exp exp' he Lexp hexp)
+  have gtn := getTime_of_timeIs kvs' "nbf" nbf' (timeCase "nbf" c.nbf nbf' hn Lnbf hnbf)
+  have gti := getTime_of_timeIs kvs' "iat" iat' (timeCase "iat" c.iat iat' hi Liat hiat)
+  have ga : audience ⟨kvs', none⟩ = (aud', ⟨kvs', none⟩) := by
+    by_cases hca : c.aud = []
+    · apply audience_congr (rawKVs c.raw) kvs' aud' _ (haud.2 hca)
+      rw [hjson, Laud, hca]
+    · rw [haud.1 hca]
+      apply audience_of_lookup
+      rw [hjson, Laud]
+      cases hc : c.aud with
+      | nil => exact absurd hc hca
+      | cons a r => cases r <;> rfl
+  have cexp : ((Wire.lookup "exp" kvs').isSome && !decide ((o ⟨"now", []⟩).asInt < exp')) = false := by
+    cases hp : (Wire.lookup "exp" kvs').isSome with
+    | false => rfl
+    | true => simp [hnowE hp]
+  have cnbf : ((Wire.lookup "nbf" kvs').isSome && decide ((o ⟨"now", []⟩).asInt < nbf')) = false := by
+    cases hp : (Wire.lookup "nbf" kvs').isSome with
+    | false => rfl
+    | true => simp [hnowN hp]
+  have hfin : finish (o ⟨"now", []⟩).asInt (.obj kvs') iss' sub' aud' ⟨kvs', none⟩ =
+      .ok ⟨iss', sub', aud', exp', nbf', iat', jti', .obj kvs'⟩ := by
+    unfold finish
+    simp only [gte, cexp, Bool.false_eq_true, if_false, gtn, cnbf, gti, gj2, gj1]
+  unfold encodeClaims
+  rw [hmap]
+  simp only [PO.run_bind, PO.run_query, hmarshal, PO.run_pure]
+  unfold parseClaims
+  simp only [PO.run_bind, PO.run_query, hdecode, rawMap, gi1, gi2, gs1, gs2, hviss, ga, hvaud,
+    PO.run_ofOutcome, hfin]
+
 end GoatProofs.Lemmas.C10ClaimsRT
